@@ -53,15 +53,17 @@ def cfg_text(forced, emit, devs="{}", maxops=3, rcs=(0, 1, 2), rds=(1, 2), tos=(
 TIERS = {
     "quick": dict(
         free=dict(maxops=2, rcs=(0, 1), rds=(1, 2), tos=(0, 1)),
-        gen=dict(emit="all", view=True, maxops=3, rcs=(0, 1, 2), rds=(1, 2), tos=(0, 1, 2)),
-        sound=None,                      # the generating run checks Prop_* on every state it visits
-        max_plain=6000, max_racing=900, racing_reps=6, stress_ms=2500, devs=False, timeout=100),
+        # one schedule per transition (VIEW hides history/monitor); Prop_* checked on every visited state
+        gen=[dict(emit="all", view=True, maxops=3, rcs=(0, 1), rds=(1, 2), tos=(0, 1)),
+             dict(emit="all", view=True, maxops=2, rcs=(2,), rds=(1, 2), tos=(0,), kinds=("retry",))],
+        max_plain=6000, max_racing=300, racing_reps=6, stress_ms=2500, devs=False, timeout=240),
     "thorough": dict(
         free=dict(maxops=3, rcs=(0, 1, 2), rds=(1, 2), tos=(0, 1, 2)),
-        gen=dict(emit="end", view=False, maxops=3, rcs=(0, 1, 2), rds=(1, 2, 3), tos=(0, 1, 3)),
-        sound=None,                      # the generating run is the full forced state space
-        cover=dict(emit="all", view=True, maxops=3, rcs=(0, 1, 2, 3), rds=(1, 2, 3), tos=(0, 1, 3)),
-        max_plain=10 ** 9, max_racing=40000, racing_reps=10, stress_ms=20000, devs=True, timeout=900),
+        # the full forced state space (every complete behaviour printed at the horizon) + transition cover
+        # for RetryCount up to 3
+        gen=[dict(emit="end", view=False, maxops=3, rcs=(0, 1, 2), rds=(1, 2, 3), tos=(0, 1, 3)),
+             dict(emit="all", view=True, maxops=3, rcs=(3,), rds=(1, 2, 3), tos=(0,), kinds=("retry",))],
+        max_plain=10 ** 9, max_racing=40000, racing_reps=10, stress_ms=20000, devs=True, timeout=1000),
 }
 
 DEV_CFGS = {  # deviation -> (cfg constants, property that must be violated on the model)
@@ -104,16 +106,15 @@ def model_stage(prop, tier):
     if prop == "C18":
         jobs.append(("free", cfg_text(False, "none", **T["free"]),
                      "MC_tx_free.cfg"))
-    jobs.append(("gen", cfg_text(True, **T["gen"]), "MC_tx_gen.cfg"))
-    if T.get("cover"):
-        jobs.append(("cover", cfg_text(True, **T["cover"]), "MC_tx_cover.cfg"))
+    for n, g in enumerate(T["gen"]):
+        jobs.append(("gen%d" % n, cfg_text(True, **g), "MC_tx_gen%d.cfg" % n))
     if T["devs"]:
         for d, (kw, _) in DEV_CFGS.items():
             jobs.append(("dev:" + d, cfg_text(True, "none", invariants=(DEV_CFGS[d][1],), **kw),
                          "MC_tx_dev_%s.cfg" % d))
-    nw = max(2, vlib.NCPU // max(1, min(len(jobs), 3)))
+    nw = max(2, vlib.NCPU // max(1, min(len(jobs), 4)))
     results = dict(zip([j[0] for j in jobs],
-                       vlib.pmap(lambda j: run_tlc(j[2], j[1], T["timeout"], workers=nw), jobs, n=3)))
+                       vlib.pmap(lambda j: run_tlc(j[2], j[1], T["timeout"], workers=nw), jobs, n=4)))
 
     for label, res in results.items():
         if label.startswith("dev:"):
@@ -129,9 +130,7 @@ def model_stage(prop, tier):
             account(label, res)
 
     scheds, seen = [], set()
-    for label in ("gen", "cover"):
-        if label not in results:
-            continue
+    for label in sorted(l for l in results if l.startswith("gen")):
         for line in vlib.tlc_printed(results[label], "SCHED:"):
             if line in seen:
                 continue
@@ -329,7 +328,26 @@ def run(prop, tier, replay=None):
     t0 = time.time()
     if prop not in ("C18", "C19"):
         raise vlib.Inconclusive("family transactions serves C18, C19")
+    stage = {}
+
+    def lap(name, t):
+        stage[name] = round(time.time() - t, 1)
+        return time.time()
+    t1 = time.time()
     binary = vlib.build_driver("txdrv")
+    t1 = lap("build", t1)
+    inst = None
+    if prop == "C18" and not replay:
+        # the free-running instruments run beside the model/replay pipeline
+        from concurrent.futures import ThreadPoolExecutor
+        pool = ThreadPoolExecutor(max_workers=1)
+        t_inst = time.time()
+
+        def timed_instruments():
+            r = instruments(tier)
+            stage["instruments(parallel)"] = round(time.time() - t_inst, 1)
+            return r
+        inst = pool.submit(timed_instruments)
     mstats = dict(states=0, transitions=0, runs=[])
     sel = {}
     if replay:
@@ -342,11 +360,14 @@ def run(prop, tier, replay=None):
     else:
         raw, mstats = model_stage(prop, tier)
         scheds, sel = build_schedules(raw, tier)
+    t1 = lap("tlc_model", t1)
     by_id = {s["id"]: s for s in scheds}
 
     nchunks = max(1, min(vlib.NCPU, len(scheds) // 200 + 1))
     chunks_lines, crashes = execute(binary, scheds, nchunks)
+    t1 = lap("replay", t1)
     bad, tstats, tstates, ttrans = judge(chunks_lines)
+    t1 = lap("tlc_traces", t1)
     lines_by_tr = {}
     for ls in chunks_lines:
         for l in ls:
@@ -365,9 +386,10 @@ def run(prop, tier, replay=None):
         for c in crashes:
             violations.append(dict(sig=c["sig"], what="the driver process died while executing schedule %s"
                                                       % c["sched"]["id"], replay=dict(sched=c["sched"], output=c["out"])))
-        if not replay:
-            iv, info = instruments(tier)
+        if inst is not None:
+            iv, info = inst.result()
             violations += iv
+            t1 = lap("instruments_wait", t1)
     # shortest schedule first for every signature (stable, minimal replay files)
     violations.sort(key=lambda v: (v["sig"], len(json.dumps(v["replay"].get("sched", {}).get("ev", []))),
                                    json.dumps(v["replay"].get("sched", {}), sort_keys=True)))
@@ -394,7 +416,7 @@ def run(prop, tier, replay=None):
                 sel.get("racing_reps", "-")),
         exhaustive=bool(not replay and sel and sel["plain_run"] == sel["plain_total"]
                         and sel["racing_run"] == sel["racing_total"]),
-        selection=sel, post_done_observations=tstats["chk18"], budget_expectations=tstats["chk19"],
+        stage_wall_s=stage, selection=sel, post_done_observations=tstats["chk18"], budget_expectations=tstats["chk19"],
         violating_traces=len({v["replay"]["sched"]["id"] for v in violations if "sched" in v["replay"]}),
         distinct_signatures=sorted({v["sig"] for v in violations}), instruments=info, samples=samples or [dict(none=True)])
     vlib.write_evidence(prop, tier, "model_checking", cov, time.time() - t0, violations=n_new, assumptions=ASSUMPTIONS)
@@ -403,6 +425,7 @@ def run(prop, tier, replay=None):
           % (prop, tier, mstats["states"], mstats["transitions"], len(scheds), ntr, cov["trace_lines_judged"],
              nontrivial, prop, len(violations), n_new, n_known,
              "; instruments: %s" % json.dumps(info) if info else ""))
+    print("  stages (s): %s" % json.dumps(stage))
     if not replay and prop == "C19" and tstats["chk19"] == 0:
         raise vlib.Inconclusive("no C19 expectation was evaluated (vacuous run)")
     return rc
